@@ -205,6 +205,12 @@ func buildGraph(rc resolve.Client, root resolve.VersionKey, s *state) (*resolve.
 					// root for some reason. Skip it.
 					continue
 				}
+				if pv, ok := s.mapping.Get(parent.PackageKey); ok && pv != parent {
+					// The requirement came from a version of the parent
+					// that has since been replaced by another pin; it is
+					// not a requirement of the version in the graph.
+					continue
+				}
 				from = f
 			}
 			rvk := req.VersionKey
